@@ -388,14 +388,14 @@ func deriveOpts(maxW, maxCombs, mutW int, sem bool, layouts []int) core.TLCOpts 
 
 const nLayouts = 7
 
-// layoutsFor: the thorough tier applies all layouts; the quick tier the plain one and two chosen by the seed
-// (seeds 1..3 together cover all of them).
+// layoutsFor: the thorough tier applies all layouts; the quick tier the plain one and one chosen by the seed
+// (seeds 1..6 together cover all of them).
 func layoutsFor(c *core.Ctx) []int {
 	if c.Thorough() {
 		return []int{1, 2, 3, 4, 5, 6, 7}
 	}
-	k := int((c.Seed%3 + 3) % 3)
-	return []int{1, 2 + k, 5 + k}
+	k := int((c.Seed%6 + 6) % 6)
+	return []int{1, 2 + k}
 }
 
 // replayTL1 re-evaluates the case stored in a replay file.
@@ -468,7 +468,7 @@ func runC19(c *core.Ctx) error {
 	// (iv) token soups: seeded random walks of the token-string model (TLC evaluates every successor of every
 	// visited state, so all of them are cases: lengths 1..40)
 	o := tokOpts(40, false, false, 1)
-	o.Simulate = fmt.Sprintf("num=%d", c.Pick(10, 60))
+	o.Simulate = fmt.Sprintf("num=%d", c.Pick(6, 60))
 	o.Depth = 41
 	o.Seed = c.Seed
 	o.Workers = c.Pick(1, 4)
@@ -476,7 +476,7 @@ func runC19(c *core.Ctx) error {
 	if err := runJobs(c, d, jobs, h); err != nil {
 		return err
 	}
-	c.Add("traces_validated_against_impl", c.Pick(10, 240))
+	c.Add("traces_validated_against_impl", c.Pick(6, 240))
 
 	if err := selfTestTL1(c, d); err != nil {
 		return err
@@ -674,7 +674,7 @@ func lowerNamesOf(v any, set map[string]bool) {
 func traceTL1(c *core.Ctx, d *drv, st *stats) error {
 	tr := c.Scratch + "/tl1-trace.ndjson"
 	var reply map[string]any
-	n := c.Pick(2000, 30000)
+	n := c.Pick(1500, 30000)
 	if err := d.p.Call(map[string]any{"op": "randtrace1", "count": n, "seed": c.Seed, "out": tr}, &reply); err != nil {
 		return err
 	}
